@@ -56,6 +56,7 @@ if [ -f "$SRC/demo_test.rs" ]; then
     cp "$SRC/demo_test.rs" tests/demo_test.rs
     FEAT=""
     grep -qi "features tokio" "$SRC/meta.json" 2>/dev/null && FEAT="--features tokio"
+    grep -qi "features verif_hooks" "$SRC/meta.json" 2>/dev/null && FEAT="--features verif_hooks"
     say "== demonstration with the patch"
     cargo test --offline $FEAT --test demo_test >"$OUT/demo_with.log" 2>&1
     DEMO_WITH=$?
@@ -66,14 +67,14 @@ if [ -f "$SRC/demo_test.rs" ]; then
     DEMO_WITHOUT=$?
     say "demo without patch rc=$DEMO_WITHOUT"
 elif [ -f "$SRC/demo.sh" ]; then
-    cp -r "$SRC"/. "$W/MUTANT-demo/"
+    cp -r "$SRC"/. "$W/MUTANT/"
     say "== demonstration with the patch"
-    (cd "$W" && bash MUTANT-demo/demo.sh) >"$OUT/demo_with.log" 2>&1
+    (cd "$W" && env -u CARGO_TARGET_DIR bash MUTANT/demo.sh) >"$OUT/demo_with.log" 2>&1
     DEMO_WITH=$?
     say "demo with patch rc=$DEMO_WITH"
     git apply -R "$SRC/patch.diff"
     say "== demonstration without the patch"
-    (cd "$W" && bash MUTANT-demo/demo.sh) >"$OUT/demo_without.log" 2>&1
+    (cd "$W" && env -u CARGO_TARGET_DIR bash MUTANT/demo.sh) >"$OUT/demo_without.log" 2>&1
     DEMO_WITHOUT=$?
     say "demo without patch rc=$DEMO_WITHOUT"
 fi
@@ -99,6 +100,8 @@ if [ "$CONFIRMED" = yes ]; then
         exit 2
     fi
     git -C /repo apply "$SRC/patch.diff" || { say "cannot apply to /repo"; exit 2; }
+    # the checks build into their own target directories
+    unset CARGO_TARGET_DIR
     for c in $CHECKS; do
         start=$(date +%s)
         ./check "$c" quick >"$OUT/check_$c.log" 2>&1
